@@ -41,16 +41,20 @@ CHECKS = {
             "the model and the declarative Bellman-Ford statement",
             "Design: exhaustive TLC over every digraph on 3 vertices/weight set/source/pop order. Code: graphs built through the public API, "
             "every heap pop recorded through the verif hook must be a Pop step of the model (minimum-distance unvisited vertex), the returned "
-            "maps must equal the model state and satisfy the declarative property.", "DESIGN.md C18"),
+            "maps must equal the model state and satisfy the declarative property; weights up to 30000 and multiples of 2^28 (traced in units); "
+            "re-search through a reversed view after the graph was changed.", "DESIGN.md C18"),
     "C19": ("TLA+ GraphADT (map objects + handles) model-checked exhaustively; TLC-generated and random histories replayed on real Graph "
             "values with a full dump after every operation, validated by GraphTrace",
             "Design: all histories up to the bound satisfy mirror / incident-edge / agreement / reverse-twice / copy-freshness. Code: after "
-            "every operation the three maps of every live handle must equal the projection of the specification state.", "DESIGN.md C19"),
+            "every operation the three maps of every live handle must equal the projection of the specification state, no operation panics "
+            "(AddEdge on absent vertices is a no-op) and a shortest-path search through every handle agrees with the adjacency model; "
+            "GraphCore!IndInv discharged by Apalache.", "DESIGN.md C19"),
     "C20": ("PlusCal models of dfs/kahn/tarjan model-checked on all 3-vertex digraphs x decline sets x starts x iteration orders; real runs "
             "judged by TLC against declarative definitions (TravTrace)",
             "Design: exhaustive. Code: DFS reports/descents, Kahn order or panic, components and TopoShortestPath recorded on all 512 small "
             "digraphs and random larger ones, judged against restricted reachability, topological order, mutual-reachability classes and "
-            "Bellman-Ford distances.", "DESIGN.md C20"),
+            "Bellman-Ford distances; weights 0-3 and multiples of 2^29; one shared graph object (built over a removed vertex) sorted before and "
+            "after all other routines.", "DESIGN.md C20"),
     "C09": ("TLC-enumerated histories of Call/Convert/Redefine steps on shared objects (Lifecycle.tla) replayed on the real code; ContractTrace "
             "invariants C09 (no user code runs during Redefine) and C09twin (history without its Redefine steps behaves identically)",
             "Every history up to the bound is replayed on ONE set of real objects; histories containing Redefine are replayed again without those "
@@ -70,16 +74,18 @@ CHECKS = {
     "C14": ("Introspect.tla as executable oracle: TLC enumerates every signature descriptor, the harness builds it by reflection, TLC compares the "
             "reported value sets / rejection with Expected(desc)",
             "Exhaustive over the bounded descriptor space (positional lists, marker structs with every tag kind, pointer depth 0-2, error "
-            "positions, mixed/non-function/nil, structs with unexported fields).", "DESIGN.md C14"),
+            "positions, marker struct mixed with another parameter/result at either position, variadic final parameters, non-function/nil, "
+            "statically declared structs with unexported fields and self-referential pointer types; NewFunc under a watchdog).", "DESIGN.md C14"),
     "C15": ("ValueSet.tla as executable oracle (Values, lookups, signature round trip) + Contract invariants over scenarios and histories whose "
             "functions are all assembled with NewValueSet+BuildFunc",
-            "Exhaustive over value lists of length <= 3 (names, casing, subtypes) and lifted sets; built functions are exercised as targets and "
-            "converters in random scenarios and in the Lifecycle histories.", "DESIGN.md C15"),
+            "Exhaustive over value lists of length <= 3 (names, casing, subtypes, names/subtypes the struct-and-tag representation cannot carry) "
+            "and lifted sets; built functions are exercised as targets and converters in random scenarios, the spec-enumerated result-list and "
+            "matching families and the Lifecycle histories.", "DESIGN.md C15"),
     "C16": ("TLA+ Contract invariant C16 on the spec-enumerated option family (duplicate keys in every arrangement, default/call splits, nil values, "
             "nil option), name casing varied by the harness; Resolver model with option folding",
             "Exhaustive family; TLC checks which supplied token each parameter received (the last occurrence) and the error on a nil option.", "DESIGN.md C16"),
     "C17": ("ResultAcc.tla as executable oracle: every result-list descriptor (kinds, nil/non-nil, resolution failure) built by reflection, Len/Out/"
-            "Err compared by TLC with Expected(desc)", "Exhaustive over result lists of length <= 3.", "DESIGN.md C17"),
+            "Err compared by TLC with Expected(desc)", "Exhaustive over result lists of length <= 3, nil / non-nil / typed-nil errors, run-once functions, first and second call.", "DESIGN.md C17"),
     "C13": ("TLA+ Contract invariant C13 on real traces", "Structured fields of the unsatisfied-argument error (Args, Inputs, Converters, text) are recorded "
             "and compared by TLC with the scenario.", "DESIGN.md C13"),
 }
